@@ -10,7 +10,7 @@ SIM = 'deterministic whole-stack simulator (virtual clock, fake transports) driv
 CHECKS = {
     'C01': dict(
         technique='property-based testing (Hypothesis) with differential round-trip oracle against an independent RFC 1035 codec',
-        text='Generated messages (shared-suffix name pools that may contain the root name, all record kinds, remaining-TTL modes, bulk up to 400 entries aimed at '
+        text='Generated messages (shared-suffix name pools that may contain the root name, all record kinds, answers added with add_answer_at_time or through add_answer(incoming_query, record), packets() called twice, remaining-TTL modes, bulk up to 400 entries aimed at '
              'the 1460/8966-byte limits) are built with DNSOutgoing and decoded with DNSIncoming and an independent decoder; '
              'per-section equality with the expectation computed from the case. Exploration only: no absence claim.',
         note='trusts vlib/wire.py (independent codec) and Hypothesis; names bounded in characters as the property states',
@@ -112,7 +112,7 @@ CHECKS.update({
         technique='property-based testing of generated shutdown schedules in the deterministic simulator and, for the thread clause, on a real-thread world with compressed time; invariant oracle over trace, callback log, task/thread outcomes and the loop exception handler',
         text=SIM + 'async_close() is requested at generated instants (grid around registration steps, queued answers, TC holds, browser start-up, pending lookups) '
              'or aimed at the periodic purge timer to within a few event-loop iterations of 1 us-1 ms virtual cost, on a victim with an active peer and a never-removed RecordUpdateListener; nothing may be sent or called back after close returned, in-flight coroutines finish with documented outcomes, '
-             'registered services get three complete goodbyes and the last multicast about each of the instance\'s records before the sockets close carries TTL 0, a second close is silent, 3 h of virtual time stay quiet. About one case in sixty runs Zeroconf() with its own loop thread on a real selector loop (clock compressed 10x) and calls close() from a non-loop thread while calls on other threads are in flight and slow listeners start further browsers from their callbacks; one case in fifteen closes the instance 0-6 loop iterations after its constructor returned.',
+             'registered services get three complete goodbyes and the last multicast about each of the instance\'s records before the sockets close carries TTL 0, a second close is silent, 3 h of virtual time stay quiet. About one case in sixty runs Zeroconf() with its own loop thread on a real selector loop (clock compressed 10x) and calls close() from a non-loop thread (or from a browser callback) while calls on other threads are in flight, slow listeners start further browsers from their callbacks and browsers created the README\'s way are running, or keeps the instance in the application\'s own loop, which goes on after a blocking close() from another thread; one case in fifteen closes the instance 0-6 loop iterations after its constructor returned.',
         note='the real-thread cases are not pure functions of the case (OS scheduling): their oracle is timing-free and a violation observed once stands; virtual-time busy loops are reported via an iteration budget',
         ref='3/C17'),
 })
